@@ -541,7 +541,6 @@ func liveRefAudit(c *Ctx, rule string, stores []struct{ rel, typ, field string }
 	}
 }
 
-
 // compiledPathGlobalState: the compiled request closure and its cmd/glyph callees (depth 4) neither write
 // package variables nor use a package-level sync.Once / sync.Pool.
 func compiledPathGlobalState(c *Ctx, rule string) {
